@@ -325,6 +325,14 @@ def main(ctx: Ctx):
             check_mgda(ctx, [[v * Fr(2) ** k for v in r] for r in J], dtype)
         if i % 2 == 0 or m <= 3:
             check_pcgrad(ctx, J, torch.float64)
+        if i % 8 == 1:
+            # three (four) mutually STRONGLY conflicting rows (pairwise angles around 150 degrees): after two projections a row can
+            # point against its own original — the definition still never projects a row off itself
+            base = [[8, 0], [-7, 4], [-7, -4], [1, 9]][:rng.choice([3, 3, 4])]
+            Js = [[Fr(v * k) for v in r] + [Fr(rng.randint(-1, 1))] for r in base for k in [rng.randint(1, 4)]]
+            rng.shuffle(Js)
+            ctx.count("pcgrad_strongly_conflicting")
+            check_pcgrad(ctx, Js, torch.float64)
         check_graddrop(ctx, J, dtype)
         if i % 5 == 2 and m >= 2:
             Jz = [list(r) for r in J]
